@@ -36,6 +36,10 @@ public:
         if (fails_) {
             TestFailure f(this, failFile_, failLine_, SimpleString(failMessage_));
             addFailure(f);
+            if (fails_ == 2) {      // a second failure of the SAME test (e.g. a leak or mock failure raised by a plugin after a failed check)
+                TestFailure g(this, failFile_, failLine_ + 1, SimpleString("second"));
+                addFailure(g);
+            }
         }
     }
 };
@@ -74,6 +78,7 @@ void h_set_failure(int i, const char* file, unsigned long line, const char* mess
 {
     run_[i].fails_ = 1; run_[i].failFile_ = file; run_[i].failLine_ = line; run_[i].failMessage_ = message;
 }
+void h_set_second_failure(int i) { run_[i].fails_ = 2; }
 void h_run(int n)
 {
     for (int i = n - 1; i >= 0; i--) reg_->addTest(chosen_[i]);      // addTest prepends
